@@ -1411,7 +1411,9 @@ def random_history(arg):
         r = rnd.random()
         if w.m.writeDict:
             # the poller writes the registered values before anything else happens (a save may come first)
-            if r < 0.8:
+            if r > 0.93:
+                w.reload()      # a power cycle of the hardware is detected before the start-up writes
+            elif r < 0.8:
                 if r < 0.1:     # the hardware refuses one of the registered values
                     w.fail[rnd.choice(sorted(w.m.writeDict))] = 'write'
                 w.write_init(_rand_plan(rnd, pfault=0.2))
